@@ -139,6 +139,30 @@ def stale_tmp_other_dir():
     return problems
 
 
+def same_stem_family():
+    """Targets that share a stem (`prog`, `prog.o`; `x.a`, `x.b` under default rules) are under construction together:
+    each has its own `$3`, so each ends up with exactly what its script wrote.  Returns a list of problems."""
+    problems = []
+    pr = Project()
+    try:
+        pr.write("prog.do", 'echo linked >"$3"\nredo-ifchange prog.o\n')
+        pr.write("default.o.do", 'echo "object $2" >"$3"\n')
+        pr.write("default.a.do", 'echo "a1" >"$3"; sleep 0.3; echo "a2" >>"$3"\n')
+        pr.write("default.b.do", 'sleep 0.1; echo "b" >"$3"\n')
+        rc, o, e = pr.run(["redo", "prog"], timeout=60)
+        if rc != 0 or pr.read("prog") != b"linked\n" or pr.read("prog.o") != b"object prog\n":
+            problems.append(dict(how="prog.do writes $3, then asks for prog.o (default.o.do)", rc=rc, prog=repr(pr.read("prog")), prog_o=repr(pr.read("prog.o")), stderr=e[-400:]))
+        rc, o, e = pr.run(["redo", "-j2", "x.a", "x.b"], timeout=60)
+        if rc != 0 or pr.read("x.a") != b"a1\na2\n" or pr.read("x.b") != b"b\n":
+            problems.append(dict(how="redo -j2 x.a x.b (default.a.do, default.b.do write $3)", rc=rc, x_a=repr(pr.read("x.a")), x_b=repr(pr.read("x.b")), stderr=e[-400:]))
+        left = [f for f in os.listdir(pr.root) if f.endswith(".tmp")]
+        if left:
+            problems.append(dict(how="temporary files left", files=left))
+    finally:
+        pr.destroy()
+    return problems
+
+
 def run(ctx):
     rng = random.Random(ctx["seed"])
     viol = ctx.setdefault("violations", [])
@@ -222,6 +246,11 @@ def run(ctx):
         if probs:
             pth = write_replay("C04", "stale-tmp-dir", dict(kind="impl-monitor", problems=probs, scenario="sub/out.do with a stale sub/out.redo.tmp; redo sub/out from the top directory and redo out from sub/"))
             viol.append(Violation("C04", pth, "stale $3 of an earlier build (%s, `%s` in %s): exit %s, target %s (expected %s), tmp left: %s" % (probs[0]["how"], " ".join(probs[0]["argv"]), probs[0]["cwd"], probs[0]["rc"], probs[0]["target"], probs[0]["expected"], probs[0]["tmp_left"])))
+    if not viol:
+        probs = same_stem_family()
+        if probs:
+            pth = write_replay("C04", "same-stem", dict(kind="impl-monitor", problems=probs))
+            viol.append(Violation("C04", pth, "targets sharing a stem built together: %s" % json.dumps(probs[0])[:400]))
     return dict(evaluations=len(results), distinct_nontrivial=len(set(reqs)),
                 rule="behaviour product stdout{0,1,64K} x $3{none,1,64K,empty,created-then-deleted} x $1{untouched,written,written with an older mtime,deleted} x exit{0,1,7,SIGKILL at start,SIGKILL after output,SIGTERM at end} x prior{absent,generated} x stale tmp file{no,yes}, + target-is-a-non-empty-directory install failures (%s); distinct = distinct model inputs reached" % ("all %d" % len(full) if thorough else "seeded sample of 140 + 9 corner cases of %d" % len(full)),
                 samples=samples, exhaustive=thorough, disagreements_checked=len(results),
